@@ -59,6 +59,7 @@ class World:
 
         self.D1u = UK.BufferedDestination(name="D1u")
         self.O1g = UK.GatedOrigin(name="O1g")  # state-less, owns an action
+        self.O1d = UK.OptionalDemandOrigin(name="O1d")  # state-less, declares a disturbance on the INSTANCE
         self.net = M.Network().add_path((self.N[0], self.L1, self.N[1], self.L2, self.N[2], self.L0, self.N[5]),
                                         origin=self.O1, destination=self.D1)
         # model
@@ -201,6 +202,9 @@ class World:
     def op_replace_origin_user(self):
         self.net.add_origin(self.O1g, self.N[0])
 
+    def op_replace_origin_instance_declared(self):
+        self.net.add_origin(self.O1d, self.N[0])
+
     def op_replace_dest_user(self):
         self.net.add_destination(self.D1u, self.N[5])
 
@@ -335,7 +339,7 @@ def observe_compile(W_, rec, ctxhist):
 
 
 OPS = ("init", "init", "init_numeric", "read_views", "read_views", "drop_next", "reset", "reinit_same", "stepel", "stepel", "netstep", "netstep", "netstep_alt", "compile", "compile", "compile",
-       "add_branch", "add_ramp", "replace_origin", "replace_link", "replace_dest", "replace_branch_dest", "replace_dest_user", "replace_origin_user")
+       "add_branch", "add_ramp", "replace_origin", "replace_link", "replace_dest", "replace_branch_dest", "replace_dest_user", "replace_origin_user", "replace_origin_instance_declared")
 
 
 def apply(W_, rec, op, arg=None):
@@ -427,6 +431,10 @@ def run(M, rec, tier, seed, k, n):
         [("init", 0), ("init", 1), ("init", 2), ("init", 3), ("init", 4), ("stepel", 3), ("read_views", None), ("stepel", 0), ("stepel", 1), ("stepel", 2),
          ("stepel", 4), ("compile", None)],
         [("netstep", None), ("read_views", None), ("add_ramp", None), ("init", 4), ("stepel", 4), ("read_views", None), ("compile", None)],
+        # an element whose variable groups are declared on the instance, swapped in after the last step
+        [("netstep", None), ("replace_origin_instance_declared", None), ("compile", None)],
+        [("netstep", None), ("replace_origin_instance_declared", None), ("compile", None), ("netstep", None), ("compile", None)],
+        [("replace_origin_instance_declared", None), ("netstep", None), ("compile", None), ("reset", 3), ("compile", None)],
         # results / variables taken away by hand after a successful compilation with the same engine object
         [("netstep", None), ("compile", None), ("drop_next", 0), ("compile", None)],
         [("netstep", None), ("compile", None), ("drop_next", 3), ("compile", None), ("netstep", None), ("compile", None)],
